@@ -222,3 +222,38 @@ func vh_finish_sizes() {
 	}
 	vObserve("body", body >= 0)
 }
+
+// ---- the snappy wrapper: a decoded body belongs to the caller ----
+//
+// The block codec is a contract stub (snappy.Decode(dst, src): the decoded bytes, written into dst when
+// they fit, a fresh buffer otherwise - as documented). framer.readFrame keeps the slice Decode returned
+// as the frame's body and parses it later, while other frames are decoded on the same or another
+// connection: a later Decode must not change an earlier result. sync.Pool may hand back anything that
+// was put (engine model).
+func vstubSnappyDecode(dst, src []byte) ([]byte, error) {
+	if vBool("block_is_corrupt") {
+		return nil, vErrIO
+	}
+	n := vChoose("decoded_len", 3)
+	if n <= len(dst) {
+		dst = dst[:n]
+	} else {
+		dst = make([]byte, n)
+	}
+	for i := range dst {
+		dst[i] = vU8("decoded_byte")
+	}
+	return dst, nil
+}
+
+func vh_snappy_decode_twice() {
+	c := SnappyCompressor{}
+	first, e1 := c.Decode([]byte{1})
+	var snap []byte
+	snap = append(snap, first...)
+	second, e2 := c.Decode([]byte{2})
+	if e1 == nil {
+		vAssert(refBytesSame(first, snap), "C18/snappy/a-decoded-body-is-not-changed-by-a-later-decode")
+	}
+	vObserve("ok", e1 == nil && e2 == nil && len(second) >= 0)
+}
